@@ -377,8 +377,11 @@ def ssl2_records(rng):
     challenge = rbytes(rng, rng.choice([16, 17, 32]))
     pairs.append(Pair('ssl2-client-hello', record.SslRecord(sub.SslHandshakeClientHello(kinds, session_id, challenge)),
                       ref.ssl2_record(1, ref.ssl2_client_hello(0x0002, codes, session_id, challenge))))
-    certificate_bytes = rbytes(rng, pick_len(rng, 0, 700))
     connection_id = rbytes(rng, rng.choice([0, 16]))
+    # record bodies on both sides of 2^14 (the three-byte header's limit) and up to the two-byte header's 2^15 - 1
+    room = 32767 - 1 - 11 - 3 * len(codes) - len(connection_id)
+    certificate_length = rng.choice([pick_len(rng, 0, 700)] * 4 + [16384 - 40, 16384 - 12, 16384, 20000, room - 1, room])
+    certificate_bytes = rbytes(rng, min(300, certificate_length)) + b'\x30' * max(0, certificate_length - 300)
     hit = rng.random() < 0.5
     pairs.append(Pair('ssl2-server-hello',
                       record.SslRecord(sub.SslHandshakeServerHello(certificate_bytes, kinds, connection_id, hit)),
